@@ -22,6 +22,8 @@ def compile_pat(p: str) -> ast.AST:
     src = p.replace("$$$", _MV + "REST__")
     src = re.sub(r"\$([A-Za-z_][A-Za-z0-9_]*)", lambda m: _MV + m.group(1), src)
     tree = ast.parse(src.strip())
+    from .canon import canonicalise
+    tree = canonicalise(tree)
     node = tree.body[0]
     if isinstance(node, ast.Expr):
         node = node.value
@@ -58,6 +60,16 @@ def _m(p, n, b) -> bool:
         b[mv] = n
         return True
     if type(p) is not type(n):
+        return False
+    if isinstance(p, ast.Compare) and len(p.ops) == 1 and len(n.ops) == 1 and type(p.ops[0]) is type(n.ops[0]) \
+            and isinstance(p.ops[0], (ast.Eq, ast.NotEq, ast.Is, ast.IsNot)):
+        # equality is symmetric: try both operand orders (bindings are rolled back between attempts)
+        for (pl, pr) in ((p.left, p.comparators[0]), (p.comparators[0], p.left)):
+            trial = dict(b)
+            if _m(pl, n.left, trial) and _m(pr, n.comparators[0], trial):
+                b.clear()
+                b.update(trial)
+                return True
         return False
     if isinstance(p, ast.AST):
         for field in p._fields:
